@@ -602,12 +602,24 @@ def conv_mparse(fr):
                     str(facts['ai']), str(facts['al']), str(facts['ia']), '1' if rv else '0', '1',
                     str(start), str(length), cps(text), str(rs), str(rl), cps(rt)])
     impl = '%d:%d:%s|%d:%d:%s' % (ps, pl, cps(pt), fs, fl, cps(ft))
-    return {'kind': 'mparse', 'op': op, 'impl': impl, 'src': text, 'n_results': 1 if facts['kind'] != 'none' or facts['ar'] else 0,
+    extra = []
+    if facts['kind'] in ('before', 'after', 'since') and not facts['ar'] and rv and not (facts['ia'] and facts['kind'] != 'before'):
+        # one modifier, no `around`, the inner parser resolved: exactly the case the single-modifier functions of RTV.Span
+        # (pushPrefix / popPrefix, pushSuffix / popSuffix — theorems push_pop_* of Props/C01) describe; same recorded call,
+        # same expected spans (audit item 35: these functions had no correspondence op)
+        op2 = '\t'.join(['sp.pushpop', str(facts['ia']), str(facts['ki']), str(facts['kl']), str(start), str(length), cps(text),
+                         str(rs), str(rl), cps(rt)])
+        extra.append({'kind': 'spushpop', 'op': op2, 'impl': impl, 'src': text, 'n_results': 1, 'problem': None,
+                      'ext': type(parser).__name__, 'hyp': {'suffix': bool(facts['ia'])}})
+        # modelEnd: `end = start + length - 1` of the result the model reports (Model.parse)
+        extra.append({'kind': 'smend', 'op': 'sp.mend\t%d\t%d' % (fs, fl), 'impl': str(fs + fl - 1), 'src': text, 'n_results': 0,
+                      'problem': None, 'ext': type(parser).__name__})
+    return extra + [{'kind': 'mparse', 'op': op, 'impl': impl, 'src': text, 'n_results': 1 if facts['kind'] != 'none' or facts['ar'] else 0,
             'hyp': {'modifier': facts['kind'] != 'none' or bool(facts['ar']),
                     'two_modifiers': facts['kind'] in ('before', 'after', 'since') and bool(facts['ar']),
                     'sub_parser_keeps_span': (rs, rl, rt) == (ps, pl, pt),
                     'restored_equals_original': (fs, fl, ft) == (start, length, text) or not rv},
-            'problem': None, 'ext': type(parser).__name__}
+            'problem': None, 'ext': type(parser).__name__}]
 
 
 CONV = {'mext': conv_mext, 'zhaddto': conv_zhaddto, 'mparse': conv_mparse, 'num': conv_num, 'seq': lambda f: conv_seq(f, 'seq'), 'ip': lambda f: conv_seq(f, 'ip'),
@@ -627,7 +639,9 @@ def frames_to_ops(frames):
             r = f(fr)
         except Exception as e:     # a converter that cannot read a frame is reported, not hidden
             r = {'kind': fr['kind'], 'problem': 'converter raised %s: %s' % (type(e).__name__, e)}
-        if r:
+        if isinstance(r, list):
+            out.extend(r)
+        elif r:
             out.append(r)
     return out
 
